@@ -121,7 +121,11 @@ def render(decls, obs, numbers=()):
     nums = "".join('<n><xsl:number level="%s" count=%s format="1.1"/></n>' % (nm["level"], quoteattr(xpgen.render(nm["count"]))) for nm in numbers)
     main.append('<xsl:template match="/"><o><xsl:copy-of select="."/></o><xsl:for-each select="//* | /."><xsl:call-template name="obs"/></xsl:for-each>'
                 '<xsl:for-each select="//*"><e>%s</e></xsl:for-each></xsl:template>' % nums)
-    main.append('<xsl:template name="obs">' + "".join('<xsl:variable name="v%d" select=%s/>' % (i, quoteattr(xpgen.render(e))) for i, e in enumerate(obs)) + '</xsl:template>')
+    # node-set observations also reach the result as CHARACTER EVENTS of a node-set OBJECT: xsl:value-of / string-length() of a variable
+    # that holds the node-set (not of a path, which the processor walks itself) - <vo> / <vl> elements, in the order of vo_indexes(obs)
+    qs = "".join('<xsl:param name="q%d" select=%s/>' % (i, quoteattr(xpgen.render(obs[i]))) for i in vo_indexes(obs))     # (xsl:param: no xsl:variable select event)
+    vo = "".join('<vo><xsl:value-of select="$q%d"/></vo><vl><xsl:value-of select="string-length($q%d)"/></vl>' % (i, i) for i in vo_indexes(obs))
+    main.append('<xsl:template name="obs">' + qs + "".join('<xsl:variable name="v%d" select=%s/>' % (i, quoteattr(xpgen.render(e))) for i, e in enumerate(obs)) + vo + '</xsl:template>')
     main.append('</xsl:stylesheet>')
     files["main.xsl"] = "\n".join(main) + "\n"
     if "A" in used:
@@ -130,6 +134,11 @@ def render(decls, obs, numbers=()):
         if m in used:
             files[m + ".xsl"] = "\n".join([head] + body[m] + ['</xsl:stylesheet>']) + "\n"
     return files
+
+
+def vo_indexes(obs):
+    """the observations whose value is a node-set given by a location path"""
+    return [i for i, e in enumerate(obs) if e.get("op") == "path"]
 
 
 def spec_decls(decls):
@@ -221,6 +230,22 @@ def run(res, tier, seed):
                 if val["t"] == "ns":
                     val = {"t": "ns", "v": [[d + 1, x[1], 0] for x in val["v"]]}
                 events.append({"e": "Obs", "doc": d + 1, "ctx": e["node"][1], "decls": sd, "keys": SPEC_KEYS, "expr": xpgen.strip_render_only(ob), "text": xpgen.render(ob), "res": val, "sample": c["id"]})
+            # <vo> / <vl>: per context node (the root, then every element, in document order) and per path observation
+            vos = [x for x in dn["tree"] if x["k"] == "elem" and x["qn"] in ("vo", "vl")]
+            ctxs = [1] + [i + 1 for i in range(flats[d]["n"]) if flats[d]["kind"][i] == "elem"]
+            vix = vo_indexes(obs)
+            if len(vos) != 2 * len(ctxs) * len(vix):
+                res.violation("result does not hold one <vo> and <vl> per context node and path observation (%d vs %d)" % (len(vos), 2 * len(ctxs) * len(vix)), [sample]); continue
+            k_ = 0
+            for node in ctxs:
+                for i in vix:
+                    for wrap in ("string", "string-length"):
+                        x = vos[k_]; k_ += 1
+                        out = "".join(z["v"] for z in x["c"] if z["k"] == "text")
+                        ex = fn("string", obs[i]) if wrap == "string" else fn("string", fn("string-length", obs[i]))
+                        events.append({"e": "Obs", "doc": d + 1, "ctx": node, "decls": sd, "keys": SPEC_KEYS, "expr": xpgen.strip_render_only(ex),
+                                       "text": "xsl:value-of of a variable holding " + xpgen.render(obs[i]) + (" (string-length)" if wrap != "string" else ""),
+                                       "res": {"t": "str", "v": xdm.cps(out)}, "sample": c["id"]})
             # xsl:number outputs: one <e> per element of the (stripped) source in document order, holding one <n> per instruction
             es = [x for x in dn["tree"] if x["k"] == "elem" and x["qn"] == "e"]
             elems = [i + 1 for i in range(flats[d]["n"]) if flats[d]["kind"][i] == "elem"]
